@@ -200,8 +200,13 @@ def run(ctx: Ctx):
     # column it is in (the sampled scalar is the value of its own cell at that level, the velocity is sheared in depth)
     from harness import scen
     ne = 30 if ctx.thorough else 8
+    def window(seed, k):
+        # every other case: a loaded window with different offsets in x and y (three columns, one row cut off)
+        imax, jmax = [(12, 10), (9, 13), (11, 11), (10, 12)][seed % 4]
+        return [3, imax - 1, 1, jmax - 2] if k % 2 else None
     ecases = [scen.gen(ctx.seed * 100000 + 12500 + k, vertadv=False, scalars=True, kills=False, land=False, speed=[1.0, 2.0][k % 2], continuous=False,
-                       layout="sparse", rev=bool(k % 4 == 3), scheme=["EF", "RK2", "RK4"][k % 3], nsteps=8) for k in range(ne)]
+                       layout="sparse", rev=bool(k % 4 == 3), scheme=["EF", "RK2", "RK4"][k % 3], nsteps=8,
+                       subgrid=window(ctx.seed * 100000 + 12500 + k, k)) for k in range(ne)]
     scen.e2e_stream(ctx, "whole-run-levels", ecases, "Ladim.C12.z2s_spec applied at every step (Ladim.RomsSetup.force / oracle use levelOf at the current position)")
 
 
